@@ -421,7 +421,9 @@ func (in *Interp) callFunction(fn *ssa.Function, args []Value, bind []Value) Val
 	if fn.Name() == "init" && fn.Parent() == nil && fn.Synthetic != "" && fn.Pkg != nil && len(args) == 0 {
 		// package initializer called from another initializer: packages are
 		// initialised on demand (first access to one of their globals)
-		if in.pkgInit(fn.Pkg.Pkg.Path()) {
+		// (standard-library packages on the stdInit list are initialised only
+		// when one of their globals is first read: their tables are large)
+		if pp := fn.Pkg.Pkg.Path(); in.pkgInit(pp) && !stdInit[pp] {
 			in.ensureInit(fn.Pkg)
 		}
 		return nil
